@@ -1,4 +1,7 @@
 fn main() {
+    // cfg used by external verification harnesses to reach private helpers (off by default)
+    println!("cargo::rustc-check-cfg=cfg(thwbh_tauri_typegen_verif)");
+
     // Run TypeScript generation at build time if configured
     if std::env::var("CARGO_FEATURE_BUILD_TIME_GENERATION").is_ok() {
         if let Err(e) = run_build_time_generation() {
